@@ -284,7 +284,8 @@ let () =
              (* arguments: integers in decimal, strings as x-hex; float conversions are not modelled *)
              let cfloat _ _ = raise Decline in
              let fargs = List.map (fun t -> if t = "e" || (String.length t > 0 && t.[0] = 'x') then AStr (bytes_of_tok t) else AInt (z_of_dec t)) (List.tl args) in
-             let nlv = res hex (nl_format cfloat (s 0) fargs) in
+             (* the bounded model: every snprintf call with the size bound of its call site *)
+             let nlv = res hex (nl_format_b cfloat (s 0) fargs) in
              let luav = (match lua_format cfloat (s 0) fargs with LVal v -> hex v | LErr -> "!error") in
              nlv ^ " || " ^ luav
            | "packsize" ->
